@@ -12,6 +12,7 @@ import FendModel.Model.SerializeCanon
 import FendModel.Model.Preview
 import FendModel.Model.XRates
 import FendModel.Model.Cli
+import FendModel.Model.Dist
 
 open Fend Fend.Proto
 
@@ -331,6 +332,47 @@ def clirunLine (line : String) : String :=
   let out := Fend.Cli.evalExprs coreEval rs (rs.map fun _ => "e") {}
   s!"status {out.status} out {packedOfStr out.stdout} err {packedOfStr out.stderr}"
 
+def showRatQ (q : Rat) : String := s!"{q.num}/{q.den}"
+
+/-- postfix dice expressions: `d N M`, `n K` (integer constant), `+ - * / neg`; optional trailing `roll R`.
+Output: parts in storage order `k:p;...`, sorted outcomes, mean, and the sampled outcome for `roll R`. -/
+def distLine (line : String) : String :=
+  let toks := (line.trimAscii.toString.splitOn " ").filter (!·.isEmpty)
+  let rec go (fuel : Nat) (toks : List String) (stack : List Fend.Dist.Dist) (roll : Option Nat) : Option (Fend.Dist.Dist × Option Nat) :=
+    match fuel with
+    | 0 => none
+    | fuel + 1 =>
+    match toks with
+    | [] => match stack with | [d] => some (d, roll) | _ => none
+    | "d" :: n :: m :: rest => match n.toNat?, m.toNat? with
+      | some n, some m => if n = 0 ∨ m = 0 then none else go fuel rest (Fend.Dist.newDie n m :: stack) roll
+      | _, _ => none
+    | "n" :: k :: rest => match k.toInt? with
+      | some k => go fuel rest ([((k : Rat), 1)] :: stack) roll
+      | none => none
+    | "neg" :: rest => match stack with
+      | a :: st => go fuel rest (Fend.Dist.neg a :: st) roll | _ => none
+    | "roll" :: r :: rest => go fuel rest stack r.toNat?
+    | op :: rest => match stack with
+      | b :: a :: st =>
+        let f : Option (Rat → Rat → Rat) := if op = "+" then some (· + ·) else if op = "-" then some (· - ·)
+          else if op = "*" then some (· * ·) else if op = "/" then some (· / ·) else none
+        match f with
+        | some f => if op = "/" ∧ b.any (fun kp => kp.1 = 0) then none else go fuel rest (Fend.Dist.bop f a b :: st) roll
+        | none => none
+      | _ => none
+  match go (toks.length + 1) toks [] none with
+  | none => "bad-op"
+  | some (d, roll) =>
+    let parts := ";".intercalate (d.map fun kp => showRatQ kp.1 ++ ":" ++ showRatQ kp.2)
+    let srt := ",".intercalate ((Fend.Dist.sorted d).map fun kp => showRatQ kp.1)
+    let mean := match Fend.Dist.mean d with | some m => showRatQ m | none => "none"
+    let thr := fun (p : Rat) => ((Float.ofInt p.num / Float.ofNat p.den) * 4294967295.0).toUInt32.toNat
+    let rolled := match roll with
+      | some r => match Fend.Dist.sample thr d r with | some k => " roll=" ++ showRatQ k | none => " roll=none"
+      | none => ""
+    s!"parts={parts} sorted={srt} mean={mean} total={showRatQ (Fend.Dist.total d)}{rolled}"
+
 partial def loop (h : IO.FS.Stream) (out : IO.FS.Stream) (f : String → String) : IO Unit := do
   let line ← h.getLine
   if line.isEmpty then return ()
@@ -353,5 +395,6 @@ def main (args : List String) : IO UInt32 := do
   | ["preview"] => loop stdin stdout previewLine; return 0
   | ["xrates"] => loop stdin stdout xratesLine; return 0
   | ["cliargs"] => loop stdin stdout cliargsLine; return 0
+  | ["dist"] => loop stdin stdout distLine; return 0
   | ["clirun"] => loop stdin stdout clirunLine; return 0
   | _ => IO.eprintln "usage: fend_model_driver <stream>"; return 2
